@@ -1728,11 +1728,24 @@ class Compiler:
         else:
             render = "render_%s" % mangle(node.name)
         token_reset = template("__token = None")
-        return token_reset + template(
+        return token_reset + self._merge_globals(node, template(
             "f(__stream, econtext.copy(), rcontext, "
             "__i18n_domain, __i18n_context, target_language)",
-            f=render) + \
-            template("econtext.update(rcontext)")
+            f=render))
+
+    def _merge_globals(self, node, call):
+        # The caller's variable scope receives the global definitions
+        # made by the macro -- only those: writing every global of the
+        # rendering over it would replace a local definition that
+        # shadows an earlier global.
+        snapshot = identifier("__globals", id(node))
+        return template("SNAPSHOT = rcontext.copy()", SNAPSHOT=snapshot) + \
+            call + \
+            template(
+                "econtext.update(\n"
+                "    __item for __item in rcontext.items()\n"
+                "    if SNAPSHOT.get(__item[0], __marker) is not __item[1])",
+                SNAPSHOT=snapshot)
 
     def visit_DefineSlot(self, node):
         name = "__slot_%s" % mangle(node.name)
@@ -1875,11 +1888,10 @@ class Compiler:
             assignment +
             [TokenRef(node.expression.value)] +
             template("__m = __macro.include") +
-            template(
+            self._merge_globals(node, template(
                 "__m(__stream, econtext.copy(), "
                 "rcontext, __i18n_domain, __i18n_context, target_language)"
-            ) +
-            template("econtext.update(rcontext)")
+            ))
         )
 
     def visit_Repeat(self, node):
